@@ -213,6 +213,7 @@ PROPS = {
         assumptions=[A['A8'], A['D_FQ'], "laws of fpow / f2pow (specs/fpow.vrs: ring theory)", A['TOOLS'], "rewrites R11 (slice patterns), R4 (slice loops), R9a (terminal panic)"],
     ),
     'C08': dict(
+        standins=['prime_field_api'],
         units_quick=['kani:limbs', 'consts', 'mont', 'ffdep'], units_thorough=['kani:limbs', 'consts', 'mont', 'ffdep'], timeout=3000,
         technique="contract-based deductive verification: Verus contracts with generated checkpoint assertions on the fully unrolled Montgomery code of ff_derive's expansion (Fq, Fr); "
                   "contract harnesses checked by Kani/CBMC on the compiled crate for the limb layer: full 384-/256-bit input domain, loops bounded by the limb count with unwinding assertions (complete, not bounded)",
